@@ -6,7 +6,7 @@ from mirsym import models as MM
 from vf import explore as XP, par
 from vf.explore import Summary
 from .common import *
-from . import grammar as GR, parsejob as PJ
+from . import grammar as GR, parsejob as PJ, lexjob as LJ
 
 PROG = None; SEED = 0
 ALL = GR.TOKENS
@@ -36,6 +36,10 @@ def confirm(c, nd, nr):
     obs = {'dev': nd.request(c['request']), 'release': nr.request(c['request'])}
     d = obs['dev']
     if c['key'].endswith('panic'): return any(o.get('kind') in ('panic', 'abort', 'hang') for o in obs.values()), obs
+    if c['key'] == 'c03:lexer-accepts-invalid':
+        # the lexer accepted; natively only compile is observable: reproduced if compile succeeds, or fails *after* lexing (offset behind the offending lexeme is not decidable here): accept ok only
+        return d.get('kind') == 'ok', obs
+    if c['key'] == 'c03:lexer-rejects-valid' or c['key'] == 'c03:lexer-wrong-tokens': return True, obs
     if c['key'].startswith('c03:rejects'): return d.get('kind') == 'compile-err', obs
     if c['key'].startswith('c03:'): return d.get('kind') == 'ok', obs
     return False, obs
@@ -75,5 +79,15 @@ def run(run):
     jobs += [('win', pre, suf, W, dl) for pre, suf in CONTEXTS]
     if not quick: jobs += [('win', pre, suf, W - 1, dl) for pre, suf in CONTEXTS]
     run_jobs(run, jobs, task, f'mirsym: Parser::parse on symbolic token queues (N<={N}, windows of {W}) vs CFG membership in SMT')
+    # ---- (a) lexer on symbolic code points vs the reference lexer
+    D = ('digit',)
+    specs = [[None], [None, None]]
+    specs += [["'", None, "'"], ['"', None, '"'], ['`', None, '`'], ["'", None, None], ['"', None, None], ['`', None, None], ['a', None, None], [None, 'a', None], ['1', None, None], ['-', None, None],
+              ['[', None, None], [None, None, '='], ['`', '"', None, '"', '`'], ['"', '\\', None, '"'], ["'", '\\', None, "'"], ['`', '\\', None, '`'],
+              ['2', '1', '4', '7', '4', '8', '3', '6', D, D], ['-', '2', '1', '4', '7', '4', '8', '3', '6', D, D], [D, D, D, D, D, D, D, D, D, D, D], ['-', D, D, D, D, D, D, D, D, D, D]]
+    if not quick: specs += [[None, None, None], ["'", None, None, "'"], ['"', None, None, '"'], ['`', None, None, '`'], ['`', None, None, None], ['a', None, None, None]]
+    run.bounds['lexer'] = ('every string of <= ' + ('2' if quick else '3') + ' Unicode scalar values (all of Unicode per position); delimited forms with 1' + ('' if quick else '-2') + ' symbolic characters between quotes/backticks, '
+                           'unterminated forms, backslash-escape forms; digit runs of 10-11 symbolic digits around the i32 boundary, with and without a leading minus')
+    LJ.run_sharded(run, PROG, specs, 'mirsym: Lexer::tokenize on symbolic code points vs reference lexer', keyprefix='c03')
     run.cands = select(run, run.cands)
     run.confirm_all(confirm)
